@@ -341,6 +341,16 @@ with the snapshot's index and configuration; the tracker object is kept -/
 def Replica.install (r src : Replica) : Replica :=
   { kv := src.kv, latest := src.latest, tracker := r.tracker, cfg := src.cfg }
 
+/-- `FSM.witnessSnapshot` (called by `noopSnapshotter.Persist` when raft persists a LOCAL snapshot): raft captures the
+snapshot position on the FSM goroutine and calls `Persist` later, from another goroutine, while the FSM keeps applying
+entries — so the witnessed index is routinely behind the FSM's. The index only ever moves forward ("fast-forward"). -/
+def Replica.witness (r : Replica) (idx : Nat) : Replica :=
+  if r.latest < idx then { r with latest := idx } else r
+
+/-- the defective variant (tree before the repair F60): the witnessed index is stored unconditionally, moving the
+FSM's own index backwards -/
+def Replica.witnessRegress (r : Replica) (idx : Nat) : Replica := { r with latest := idx }
+
 /-! ### reference semantics: full verification of every transaction against the state produced by the prefix -/
 
 def fullVerify (s : Store) (ops : List Op) : Bool :=
